@@ -9,6 +9,7 @@ import (
 	"io"
 	"os"
 	"sort"
+	"strconv"
 	"strings"
 
 	"github.com/99designs/gqlgen/graphql"
@@ -40,6 +41,12 @@ type env struct {
 	// hs mode: what reached CreateOperationContext; documents with a field without Definition seen by Exec
 	reached []reach
 	unval   int
+	// rs mode: the script user code runs on the readers of the uploads, and what they answered
+	script []rsOp
+	rsObs  []string
+	rsKind []string
+	// wc mode: streaming subscriptions started / whose context was cancelled
+	streams, ended int
 }
 
 // validated: every field / fragment spread of the operation carries the definition the validator attaches;
@@ -201,9 +208,36 @@ func newServer(e *env, transports ...graphql.Transport) *handler.Server {
 			}
 			switch opCtx.Operation.Operation {
 			case ast.Mutation:
-				e.readUploads(opCtx.Variables)
+				if e.script != nil {
+					e.runScript(opCtx.Variables)
+				} else {
+					e.readUploads(opCtx.Variables)
+				}
 				return graphql.OneShot(&graphql.Response{Data: []byte(`{"up":"done"}`)})
 			case ast.Subscription:
+				if strings.HasPrefix(opCtx.OperationName, "StreamK") {
+					// an event source that never runs dry: every call delivers a frame of the size the operation name
+					// says, until the operation is cancelled
+					size, _ := strconv.Atoi(strings.TrimPrefix(opCtx.OperationName, "StreamK"))
+					payload := []byte(`{"name":"` + strings.Repeat("x", size) + `"}`)
+					mu.Lock()
+					e.streams++
+					mu.Unlock()
+					go func() {
+						<-ctx.Done()
+						mu.Lock()
+						e.ended++
+						mu.Unlock()
+					}()
+					return func(ctx context.Context) *graphql.Response {
+						select {
+						case <-ctx.Done():
+							return nil
+						default:
+						}
+						return &graphql.Response{Data: payload}
+					}
+				}
 				n := 0
 				hold := opCtx.OperationName == "Hold"
 				return func(ctx context.Context) *graphql.Response {
